@@ -28,12 +28,24 @@ pub fn currency_prefix(currency: &str) -> &str {
     currency.get(0..2).unwrap_or(currency)
 }
 
+/// A length-limited component (`16x`, `35x`, `3!a` ...) is a single line: multi-line formats are
+/// written `n*mx` and are split into lines before their lines are checked.
+fn ensure_single_line(input: &str, field_name: &str) -> Result<(), ParseError> {
+    if input.contains(['\n', '\r']) {
+        return Err(ParseError::InvalidFormat {
+            message: format!("{} must not contain a line break", field_name),
+        });
+    }
+    Ok(())
+}
+
 /// Parse a string with exact length requirement
 pub fn parse_exact_length(
     input: &str,
     expected_len: usize,
     field_name: &str,
 ) -> Result<String, ParseError> {
+    ensure_single_line(input, field_name)?;
     if input.len() != expected_len {
         return Err(ParseError::InvalidFormat {
             message: format!(
@@ -53,6 +65,7 @@ pub fn parse_max_length(
     max_len: usize,
     field_name: &str,
 ) -> Result<String, ParseError> {
+    ensure_single_line(input, field_name)?;
     if input.len() > max_len {
         return Err(ParseError::InvalidFormat {
             message: format!(
@@ -73,6 +86,7 @@ pub fn parse_length_range(
     max_len: usize,
     field_name: &str,
 ) -> Result<String, ParseError> {
+    ensure_single_line(input, field_name)?;
     if input.len() < min_len || input.len() > max_len {
         return Err(ParseError::InvalidFormat {
             message: format!(
